@@ -189,7 +189,9 @@ class Gen:
         if k < 0.72:
             others = self.fresh(ns, r.randint(1, 3))
             if others:
-                return ("joinOn", others, self.ref(r.choice(ns)), self.ref(others[0]))
+                dup = [x for x in ns if r.random() < 0.3][:1]    # a right column with the name (same spelling) of a left one
+                self.dup = dup[0] if dup else None
+                return ("joinOn", others + dup, self.ref(r.choice(ns)), self.ref(others[0]))
         if k < 0.77:
             kk = r.sample(ns, r.randint(1, min(2, len(ns))))
             others = self.fresh(ns, r.randint(1, 2))
@@ -250,7 +252,13 @@ class Gen:
         ops = []
         self.lost = []
         right, jstate = set(), None
+        self.dup = None
         for _ in range(r.randint(1, maxlen)):
+            if self.dup is not None:
+                # duplicate column names (condition join): PySpark's withColumnRenamed renames every column of that name;
+                # any other reference to the name would be ambiguous, so the program ends here
+                ops.append(("withColumnRenamed", self.ref(self.dup, ticks_allowed=False), (self.fresh(ns, 1) or ["Zq"])[0]))
+                break
             op = self.step(ns, ops[-1][0] if ops else None)
             if jstate:
                 op = self.avoid_right_items(op, right)
@@ -531,6 +539,9 @@ CORPUS = [
     {"names": ["AB"], "ops": [("joinOn", ["kk", "other"], "ab", "KK"), ("select", [("str", "ab"), ("item", "OTHER")])]},
     {"names": ["AB", "c d"], "ops": [("groupAgg", [("item", "C D")], ["n"])]},
     {"names": ["AB", "Xy"], "ops": [("withColumn", "Nn", "ab"), ("groupAgg", [("item", "xy")], ["n"])]},
+    # duplicate column names after a condition join: withColumnRenamed renames every column of that name
+    {"names": ["k", "Name", "v"], "ops": [("joinOn", ["id", "k", "tag"], "k", "ID"), ("withColumnRenamed", "K", "Key")]},
+    {"names": ["c d", "AB"], "ops": [("joinOn", ["id", "c d"], "ab", "id"), ("withColumnRenamed", "C D", "x y")]},
     # stale entries of the display-name map: a column the frame lost comes back from elsewhere in another spelling
     {"names": ["Status", "AB"], "ops": [("drop", ["status"]), ("join", ["ab", "STATUS"], ["ab"])]},
     {"names": ["Status", "AB"], "ops": [("select", [("str", "ab")]), ("joinOn", ["kk", "STATUS"], "AB", "KK")]},
@@ -660,7 +671,7 @@ def well_formed(prog):
             refs = [attr(op[1])]
         elif op[0] == "joinOn":
             refs = [attr(op[2])]
-            if key(attr(op[3])) not in {key(x) for x in op[1]} or {key(x) for x in op[1]} & {key(x) for x in ns}:
+            if key(attr(op[3])) not in {key(x) for x in op[1]}:
                 return False
         elif op[0] in ("drop", "dropDuplicates", "orderBy", "orderByItems"):
             refs = [attr(v) for v in op[1]]
